@@ -308,16 +308,47 @@ pub fn run(ctx: &Ctx) -> Report {
   // hosts made of characters that are legal in a domain but reserved in a query string come first
   let reserved_hosts = ["a+b.example.com:6881", "a&b.example.com:1", "k=v.example:2", "semi;colon.example:3", "a,b.example:4", "ex!ample$.com:5", "(paren).example:6", "tilde~under_score.example:7", "star*.example:9", "quote'.example:10"];
   let cli_texts: Vec<String> = reserved_hosts.iter().map(|s| s.to_string()).filter(|t| imdl::verif::hostport_parse(t).is_ok()).chain(valid_samples.iter().take(ctx.n(12, 40) as usize).cloned()).collect();
-  for text in cli_texts.iter() {
+  for (ci, text) in cli_texts.iter().enumerate() {
     let want = imdl::verif::hostport_parse(text).unwrap_or_default();
+    // a second node rides along, and the other options of create vary: none of them may change what is stored
+    let second = cli_texts[(ci + 1) % cli_texts.len()].clone();
+    let want2 = imdl::verif::hostport_parse(&second).unwrap_or_default();
+    let extra: &[&str] = match ci % 5 {
+      0 => &[],
+      1 => &["--private", "--announce", "http://tracker.example/announce"],
+      2 => &["--private", "--allow", "private-trackerless"],
+      3 => &["--announce-tier", "http://a.example/announce,udp://b.example:6969", "--comment", "c", "--source", "s"],
+      _ => &["--md5", "--no-created-by", "--no-creation-date", "--piece-length", "16KiB"],
+    };
     let sb = Sandbox::new(&ctx.work, "c17");
     sb.write("in", b"x");
-    let out = Cmd::new(&ctx.imdl, &["torrent", "create", "--input", "in", "--output", "o.torrent", "--node", text]).cwd(&sb.root).run();
+    let mut args: Vec<String> = ["torrent", "create", "--input", "in", "--output", "o.torrent", "--node", text.as_str(), "--node", second.as_str()].iter().map(|s| s.to_string()).collect();
+    args.extend(extra.iter().map(|s| s.to_string()));
+    let out = Cmd::args_owned(&ctx.imdl, args).cwd(&sb.root).run();
     report.case(Some(fnv_str(&format!("cli:{text}"))));
     report.hit("cli:create-show-link");
-    let case = json!({"text": text, "via": "cli"});
+    report.hit(&format!("cli:other-options:{}", ci % 5));
+    let case = json!({"text": text, "second_node": second, "other_options": extra, "via": "cli"});
     if !out.ok() {
-      report.fail("property", "hostport-cli", case, format!("create --node `{text}` failed: {}", out.stderr_s()));
+      report.fail("property", "hostport-cli", case, format!("create --node `{text}` --node `{second}` {extra:?} failed: {}", out.stderr_s()));
+      continue;
+    }
+    // the stored form: `nodes` = [[host text without brackets, port], ...] in the order given
+    let split = |w: &str| -> (String, i128) {
+      let (h, p) = w.rsplit_once(':').unwrap_or((w, "0"));
+      (h.trim_start_matches('[').trim_end_matches(']').to_string(), p.parse().unwrap_or(-1))
+    };
+    let stored: Option<Vec<(String, i128)>> = std::fs::read(sb.path("o.torrent")).ok().and_then(|t| crate::bencode::decode(&t).ok()).and_then(|v| {
+      v.get("nodes").and_then(|n| n.as_list()).map(|l| {
+        l.iter().map(|e| {
+          let pair = e.as_list().unwrap_or(&[]);
+          (pair.first().and_then(|h| h.as_bytes()).map(|b| String::from_utf8_lossy(b).into_owned()).unwrap_or_default(), pair.get(1).and_then(|p| p.as_int()).unwrap_or(-1))
+        }).collect()
+      })
+    });
+    let want_stored = vec![split(&want), split(&want2)];
+    if stored.as_ref() != Some(&want_stored) {
+      report.fail("property", "hostport-cli", case, format!("given `{text}` and `{second}` with {extra:?}: stored `nodes` = {stored:?}, expected {want_stored:?}"));
       continue;
     }
     let show = Cmd::new(&ctx.imdl, &["torrent", "show", "--json", "--input", "o.torrent"]).cwd(&sb.root).run();
@@ -351,8 +382,8 @@ pub fn run(ctx: &Ctx) -> Report {
         bad = Some(format!("link `{}` read with `+` as {}: x.pe = {pe:?}", link_text.trim(), if plus_space { "space" } else { "itself" }));
       }
     }
-    if nodes != vec![want.clone()] {
-      bad = Some(format!("show --json dht_nodes {nodes:?}"));
+    if nodes != vec![want.clone(), want2.clone()] {
+      bad = Some(format!("show --json dht_nodes {nodes:?}, expected [{want}, {want2}]"));
     }
     if let Some(b) = bad {
       report.fail("property", "hostport-cli", case, format!("given `{text}` (normalised `{want}`): {b}"));
